@@ -251,12 +251,18 @@ def _scenario(args):
             if idx is not None:
                 seq = idx if isinstance(idx, tuple) else (idx,)
                 out["edit"] = " ; ".join(eds[k].name for k in seq)
-                for k in seq: eds[k].live(b)
+                s_after = copy.deepcopy(spec); shared_on_the_way = H.has_shared_job(s_after)
+                for k in seq:
+                    eds[k].live(b)
+                    try: eds[k].spec(s_after)
+                    except Exception: pass
+                    shared_on_the_way = shared_on_the_way or H.has_shared_job(s_after)
+                out["shared_on_the_way"] = shared_on_the_way
         except Exception as ex:
             out["status"] = "D3" if H.is_float_cancellation_rejection(ex) else "raises"
             out["error"] = f"{type(ex).__name__}: {str(ex)[:150]}"
             return out
-        out["shared"] = H.has_shared_job(b.spec)
+        out["shared"] = H.has_shared_job(b.spec) or out.get("shared_on_the_way", False)      # a link edit of the history may create the sharing (D1)
         out["fails"] = CHECKS[prop](b)
     except Exception:
         out["status"] = "harness-error"; out["error"] = traceback.format_exc()[-800:]
